@@ -272,3 +272,23 @@ package rag
 //@   loop 2:
 //@     invariant len(text) - og.config.Size <= start && start <= len(text) && (validUTF8(text, st) ==> st[start] == 0)
 //@     decreases len(text) - start
+
+// a prefix of at most n bytes that does not end inside a character
+//@ func cutAtRuneBoundary results (r)
+//@   property C13, C02
+//@   flags pure
+//@   ghost st []int
+//@   ensures is_a_prefix: samebase(r, s) && off(r) == off(s) && len(r) <= len(s)
+//@   ensures at_most_n: (old(n) >= len(s) ==> len(r) == len(s)) && (old(n) < len(s) && old(n) >= 0 ==> len(r) <= old(n)) && (old(n) < 0 ==> len(r) == 0 || len(r) == len(s))
+//@   ensures ends_on_a_character_boundary: validUTF8(s, st) ==> st[len(r)] == 0
+//@   loop 0:
+//@     invariant 0 <= n && n <= len(s) && (n > 0 ==> n < len(s)) && (old(n) >= 0 ==> n <= old(n)) && (old(n) < 0 ==> n == 0)
+//@     decreases n
+
+// the overlap is cut to the configured maximum without splitting a character
+//@ func (*OverlapGenerator) truncateOverlap results (r)
+//@   property C13
+//@   flags nosafety
+//@   requires og.config.Size >= 0
+//@   callsite generateCharacterOverlap(t) requires sameseq(t, cutAtRuneBoundary(overlap, og.config.MaxOverlap))
+//@   ensures short_overlap_unchanged: len(overlap) <= og.config.MaxOverlap ==> sameseq(r, overlap)
